@@ -103,14 +103,14 @@ func c06Layout(c *Ctx, p *Prog, m *Model, mr *ModeReach) {
 			if cal == nil {
 				continue
 			}
-			if cal.Name() == "ShortTag" {
-				if g, ok := globalLoad(cs.Common().Args[1]); ok && g.Name() == "levelOutputWidth" {
+			if nm(cal) == "ShortTag" {
+				if g, ok := globalLoad(cs.Common().Args[1]); ok && nm(g) == "levelOutputWidth" {
 					if _, isF := isFieldLoadOf(cs.Common().Args[0], "PrintCtx", "lvl"); isF {
 						okTag = true
 					}
 				}
 			}
-			if cal.Name() == "wrapRune" {
+			if nm(cal) == "wrapRune" {
 				a := cs.Common().Args
 				l, ok1 := constInt(a[len(a)-2])
 				rr, ok2 := constInt(a[len(a)-1])
@@ -128,15 +128,15 @@ func c06Layout(c *Ctx, p *Prog, m *Model, mr *ModeReach) {
 			if cal == nil {
 				continue
 			}
-			if cal.Name() == "rightPad" {
+			if nm(cal) == "rightPad" {
 				a := cs.Common().Args
 				if s, ok := constString(a[len(a)-2]); ok && s == " " {
-					if g, ok := globalLoad(a[len(a)-1]); ok && g.Name() == "minimalMessageWidth" {
+					if g, ok := globalLoad(a[len(a)-1]); ok && nm(g) == "minimalMessageWidth" {
 						okPad = true
 					}
 				}
 			}
-			if cal.Name() == "splitFirstAndRestLines" {
+			if nm(cal) == "splitFirstAndRestLines" {
 				if _, isF := isFieldLoadOf(cs.Common().Args[len(cs.Common().Args)-1], "PrintCtx", "msg"); isF && len(guardsOf(cs.Block())) == 0 {
 					okSplit = true
 				}
@@ -153,7 +153,7 @@ func c06Layout(c *Ctx, p *Prog, m *Model, mr *ModeReach) {
 			if cal == nil {
 				continue
 			}
-			if cal.Name() == "padFunc" {
+			if nm(cal) == "padFunc" {
 				a := cs.Common().Args
 				if s, ok := constString(a[len(a)-3]); ok && s == " " {
 					if n, ok := constInt(a[len(a)-2]); ok && n == 4 {
@@ -162,7 +162,7 @@ func c06Layout(c *Ctx, p *Prog, m *Model, mr *ModeReach) {
 					}
 				}
 			}
-			if cal.Name() == "pcAppendByte" && nl == nil {
+			if nm(cal) == "pcAppendByte" && nl == nil {
 				if v, ok := constInt(cs.Common().Args[1]); ok && v == '\n' {
 					nl = cs
 				}
